@@ -119,14 +119,14 @@ def link_binning(ctx):
         return r["failures"], {"evaluations": r["evaluations"], "distinct": r["distinct"], "bound": r["bound"]}
     out.append(bounded_obl("bounded:binning/choice-vs-scheme", "pyab_experiment.binning.binning:deterministic_choice",
                            "real deterministic_choice == interval spec on all small weight vectors at boundary-adjacent grid points (real floats)",
-                           ("C03", "C16", "C10"), run_choice))
+                           ("C03", "C16", "C10", "C12", "C15"), run_choice))
 
     def run_ka():
         r = native.one({"cmd": "proba_known_answers", "seed": ctx.seed, "count": 300 if ctx.tier == "quick" else 5000})
         return r["failures"], {"evaluations": r["evaluations"], "bound": "RFC 1321 vectors + pseudo-random unicode keys, seed %d" % ctx.seed}
     out.append(bounded_obl("bounded:binning/md5-known-answers+scheme", "pyab_experiment.binning.binning:deterministic_proba",
                            "hashlib.md5 == independent MD5; real deterministic_proba == published scheme on sampled keys",
-                           ("C12", "C15"), run_ka))
+                           ("C12", "C15", "C01", "C03", "C10"), run_ka))
     return out
 
 
@@ -185,7 +185,7 @@ def link_evaluator(ctx):
             got = names.get(k)
             out.append(Obl("frame:experiment_evaluator.py/binds-%s" % k, "pyab_experiment.experiment_evaluator", "frame",
                            "the evaluator module binds `%s` to %s -- the object the generated module header imports" % (k, q),
-                           status=DISCHARGED if got == q else REFUTED, backend="extract", detail="bound to %s" % got, props=("C14", "C02", "C03", "C16", "C12", "C07"),
+                           status=DISCHARGED if got == q else REFUTED, backend="extract", detail="bound to %s" % got, props=("C14", "C02", "C03", "C16", "C12", "C07", "C01", "C09", "C10", "C15"),
                            model={"name": k, "bound_to": got, "expected": q},
                            replay=lambda ob: __import__("vcore.links_gen", fromlist=["x"]).gen_replay(ob)))
     except OSError as e:
